@@ -396,6 +396,18 @@ func framer(args []string) {
 				getMessage(w, x, "valid frame plus trailing bytes")
 			}
 		}
+		// reserved bits set so that a WIDER length field (11..16 bits) would equal the real payload size, CRC valid
+		for _, size := range []int{1024, 1025, 1279, 1536, 2048, 2049, 4096 + 19} {
+			if !thorough && size > 2100 {
+				continue
+			}
+			p := gen.Payload(rng, gen.TypeClass(rng, size), size, 0)
+			f := append([]byte{0xd3, byte(size >> 8), byte(size)}, p...)
+			f = append(f, 0, 0, 0)
+			tr.FixCRC(f)
+			run(gen.Cat(gen.Frame(rng, 1005, 19, 0), f, gen.Frame(rng, 1006, 21, 0)), fmt.Sprintf("oversize %d, wider length field, crc valid", size))
+			getMessage(w, f, fmt.Sprintf("oversize %d, wider length field, crc valid", size))
+		}
 		// zero length, CRC valid
 		for i := 0; i < 3; i++ {
 			z := []byte{0xd3, 0, 0, byte(rng.Intn(256)), byte(rng.Intn(256)), 0, 0, 0}
